@@ -157,6 +157,7 @@ type state struct {
 	bad     map[string]string // fresh function key -> reason it is left alone
 	inlined map[string]int    // key -> number of call sites inlined so far
 	dropped map[string]bool
+	keyOf   map[*types.Func]string // fresh functions of the current round
 }
 
 // Run computes the overlay. A nil overlay means nothing had to be normalised.
@@ -233,6 +234,7 @@ func (st *state) round(pats []string) (bool, error) {
 	}
 	edits := map[string][]edit{}
 	content := map[string][]byte{}
+	st.keyOf = map[*types.Func]string{}
 	src := func(fset *token.FileSet, pos token.Pos) (string, []byte, error) {
 		name := fset.PositionFor(pos, false).Filename
 		if b, ok := content[name]; ok {
@@ -276,6 +278,7 @@ func (st *state) round(pats []string) (bool, error) {
 				}
 				x := &fresh{key: k, obj: obj, decl: fd, pkg: pk, file: f}
 				fr[obj] = x
+				st.keyOf[obj] = k
 				order = append(order, x)
 				if _, isBad := st.bad[k]; !isBad {
 					if why := eligible(pk, fd, obj); why != "" {
@@ -307,6 +310,7 @@ func (st *state) round(pats []string) (bool, error) {
 		}
 		var plans []planned
 		busy := map[ast.Stmt]bool{}
+		later := false
 		for _, x := range order {
 			if _, isBad := st.bad[x.key]; isBad {
 				continue
@@ -318,6 +322,10 @@ func (st *state) round(pats []string) (bool, error) {
 					break
 				}
 				pl, stmt, err := st.plan(pk, x, id, src)
+				if err == errLater {
+					later = true // re-planned in the next round, once the earlier call is gone
+					continue
+				}
 				if err != nil {
 					st.bad[x.key] = err.Error()
 					break
@@ -325,10 +333,27 @@ func (st *state) round(pats []string) (bool, error) {
 				plans = append(plans, planned{x, stmt, pl.eds, pl.desc})
 			}
 		}
-		// a helper that calls a helper that cannot be inlined is still fine: only its own sites matter
+		_ = later
 		sort.SliceStable(plans, func(i, j int) bool { return plans[i].stmt.Pos() < plans[j].stmt.Pos() })
+		// declarations that go away in this round: nothing is inlined into them any more
+		var going []*fresh
+		for _, x := range order {
+			if _, isBad := st.bad[x.key]; isBad || len(x.uses) > 0 || st.inlined[x.key] == 0 || st.dropped[x.key] {
+				continue
+			}
+			going = append(going, x)
+		}
 		for _, p := range plans {
 			if _, isBad := st.bad[p.x.key]; isBad {
+				continue
+			}
+			inGoing := false
+			for _, g := range going {
+				if g.decl.Pos() <= p.stmt.Pos() && p.stmt.End() <= g.decl.End() && !usedInTests(pk, g.decl.Name.Name) {
+					inGoing = true
+				}
+			}
+			if inGoing {
 				continue
 			}
 			if busy[p.stmt] || overlapsBusy(busy, p.stmt) {
@@ -495,8 +520,6 @@ func eligible(pk *packages.Package, fd *ast.FuncDecl, obj *types.Func) string {
 			if !insideFuncLit(fd.Body, x) {
 				why = "uses defer"
 			}
-		case *ast.LabeledStmt:
-			why = "has labels"
 		case *ast.BranchStmt:
 			if x.Tok == token.GOTO {
 				why = "uses goto"
@@ -526,6 +549,32 @@ func insideFuncLit(root ast.Node, target ast.Node) bool {
 		return !in
 	})
 	return in
+}
+
+var errLater = fmt.Errorf("wait for an earlier helper call of the same statement")
+
+// pendingFresh: e calls a fresh function that is (still) going to be inlined.
+func (st *state) pendingFresh(pk *packages.Package, e *ast.CallExpr) bool {
+	var id *ast.Ident
+	switch f := unparen(e.Fun).(type) {
+	case *ast.Ident:
+		id = f
+	case *ast.SelectorExpr:
+		id = f.Sel
+	}
+	if id == nil {
+		return false
+	}
+	fn, ok := pk.TypesInfo.Uses[id].(*types.Func)
+	if !ok || fn.Pkg() != pk.Types {
+		return false
+	}
+	k := st.keyOf[fn.Origin()]
+	if k == "" {
+		return false
+	}
+	_, bad := st.bad[k]
+	return !bad
 }
 
 type plan struct {
@@ -771,7 +820,11 @@ func (st *state) plan(pk *packages.Package, x *fresh, id *ast.Ident, src func(*t
 				return false // its arguments are evaluated by the inlined prefix, in order
 			}
 			if !anc[e] && e.Pos() < call.Pos() && !pureCall(info, e) {
-				ordered = "a call"
+				if st.pendingFresh(pk, e) {
+					ordered = "later" // an earlier helper call of the same statement is inlined first
+				} else {
+					ordered = "a call"
+				}
 			}
 		case *ast.UnaryExpr:
 			if e.Op == token.ARROW && !anc[e] && e.Pos() < call.Pos() {
@@ -780,6 +833,9 @@ func (st *state) plan(pk *packages.Package, x *fresh, id *ast.Ident, src func(*t
 		}
 		return true
 	})
+	if ordered == "later" {
+		return nil, stmt, errLater
+	}
 	if ordered != "" {
 		return nil, nil, fmt.Errorf("%s is evaluated before the call in the same statement at %s", ordered, where)
 	}
@@ -999,6 +1055,13 @@ func (st *state) plan(pk *packages.Package, x *fresh, id *ast.Ident, src func(*t
 				if !inLit {
 					walkBody(e.Body, true)
 					return false
+				}
+			case *ast.LabeledStmt:
+				// labels of the body are renamed per copy (two copies may land in one function)
+				bes = append(bes, edit{htf.Offset(e.Label.Pos()), htf.Offset(e.Label.End()), e.Label.Name + "_" + label})
+			case *ast.BranchStmt:
+				if e.Label != nil {
+					bes = append(bes, edit{htf.Offset(e.Label.Pos()), htf.Offset(e.Label.End()), e.Label.Name + "_" + label})
 				}
 			case *ast.ReturnStmt:
 				if inLit {
